@@ -44,7 +44,9 @@ func runOpWorld(rc *corepkg, prop string) {
 	}
 	joint := rc.Knob("joint_consensus", 2) == 1
 	foreignEvents := prop == "c09" && rc.Knob("foreign_events", 3) != 0
-	ow := newOpWorld(rc, opWorldOpts{worldOpts: worldOpts{stores: nStores, replicas: replicas, fastPatrol: true,
+	// a cluster of TiKV 4.x stores: PD must neither use joint consensus nor demote voters
+	storeVersion := []string{"", "", "4.0.9"}[rc.Knob("old_cluster", 3)]
+	ow := newOpWorld(rc, opWorldOpts{worldOpts: worldOpts{stores: nStores, replicas: replicas, fastPatrol: true, storeVersion: storeVersion,
 		cfgTweak: func(c *configT) {
 			scheduleTweak(replicas, nil, "", false)(c)
 			c.Schedule.EnableJointConsensus = joint
@@ -163,7 +165,17 @@ func runOpWorld(rc *corepkg, prop string) {
 			// nothing but the operator's own steps touched the region: a cancellation means one of its steps found its
 			// precondition broken when its turn came
 			if r := ow.M.Regions[t.region]; r != nil && !r.Merged && ow.leaderStoreUp(r) {
-				rc.Violate("c08.step", "own-step-precondition-failed", "operator %s of region %d was cancelled at step %d of %d although only its own steps changed the region (model region now peers %v leader %d): %s", t.desc, t.region, t.cancelStepHint(), t.op.Len(), r.Peers, r.Leader, t.stepsText())
+				note := ""
+				for i := 0; i < t.op.Len(); i++ {
+					if al, ok := t.op.Step(i).(operator.AddLearner); ok {
+						for _, p := range t.originPeers {
+							if p.StoreID == al.ToStore && p.Role != metapb.PeerRole_Learner {
+								note = fmt.Sprintf(" (step %d adds a learner on store %d which still holds the voter it is meant to replace; store version %q)", i, al.ToStore, storeVersion)
+							}
+						}
+					}
+				}
+				rc.Violate("c08.step", "own-step-precondition-failed", "operator %s of region %d was cancelled at step %d of %d although only its own steps changed the region (model region now peers %v leader %d): %s%s", t.desc, t.region, t.cancelStepHint(), t.op.Len(), r.Peers, r.Leader, t.stepsText(), note)
 				return
 			}
 		}
@@ -235,6 +247,9 @@ func runOpWorld(rc *corepkg, prop string) {
 		}
 	}
 	ow.onCmd = func(c *cmdRecord) {
+		if prop == "c08" && storeVersion != "" && (c.res.Kind == "enter-joint" || c.res.Kind == "leave-joint" || c.res.Kind == "demote-follower") {
+			rc.Violate("c08.step", "step-unsupported-by-cluster-version", "PD ordered a %s of region %d although the stores run TiKV %s, which has neither joint consensus nor demotion", c.res.Kind, c.region, storeVersion)
+		}
 		if prop != "c08" || c.res.Applied || c.res.Kind == "" {
 			return
 		}
